@@ -31,7 +31,9 @@ type KnownFinding struct {
 	ID          string   `json:"id"`
 	Status      string   `json:"status"` // known | fixed
 	Property    string   `json:"property"`
+	Properties  []string `json:"properties,omitempty"` // further properties the finding belongs to
 	Obligations []string `json:"obligations"` // exact obligation names this finding explains
+	Patterns    []string `json:"obligation_patterns,omitempty"` // regular expressions over obligation names
 	What        string   `json:"what"`
 	Witness     string   `json:"witness"`          // the failing input, in words
 	Replay      string   `json:"replay,omitempty"` // test file under /verif/known (passes iff the defect reproduces)
@@ -69,7 +71,7 @@ func groupOf(name, kind string) string {
 		return fn + "/" + kind
 	case kind == "frame":
 		return fn + "/frame"
-	case kind == "post", kind == "inv-init", kind == "inv-pres", kind == "variant":
+	case kind == "post", kind == "inv-init", kind == "inv-pres", kind == "variant", kind == "callinv", kind == "panics":
 		if j := strings.Index(rest, "@"); j >= 0 {
 			return fn + "/" + rest[:j]
 		}
@@ -100,14 +102,55 @@ func familyOf(name, kind string) string {
 		return fn + "/post"
 	case "variant", "decreases":
 		return fn + "/termination"
+	case "callinv":
+		return fn + "/callinv"
+	case "panics":
+		return fn + "/panics"
 	}
 	return name
 }
 
+// findingMatches reports whether a known finding lists the obligation (by name or by pattern).
+func findingMatches(k *KnownFinding, name string) bool {
+	for _, n := range k.Obligations {
+		if n == name {
+			return true
+		}
+	}
+	for _, pat := range k.Patterns {
+		if re, err := regexp.Compile(pat); err == nil && re.MatchString(name) {
+			return true
+		}
+	}
+	return false
+}
+
 func contractDerived(kind string) bool {
 	switch kind {
-	case "post", "inv-init", "inv-pres", "variant", "decreases", "lemma":
+	case "post", "inv-init", "inv-pres", "variant", "decreases", "lemma", "callinv", "panics":
 		return true
+	}
+	return false
+}
+
+// propDeps: the check of a property also discharges the obligations of the
+// properties it rests on (every comparison-based operator assumes the contract
+// of bsonkit.Compare, i.e. C12). A broken dependency is a violation of the
+// dependent property as well.
+var propDeps = map[string][]string{
+	"C07": {"C12"}, "C10": {"C12"}, "C11": {"C12"}, "C13": {"C12"},
+}
+
+// serves reports whether an obligation / contract tagged with tags belongs to
+// the check of property p (directly or through propDeps).
+func serves(tags []string, p string) bool {
+	if hasTag(tags, p) {
+		return true
+	}
+	for _, d := range propDeps[p] {
+		if hasTag(tags, d) {
+			return true
+		}
 	}
 	return false
 }
@@ -162,16 +205,19 @@ func cmdCheck(args []string) {
 	var kf KnownFile
 	loadJSON(filepath.Join(*verif, "known_findings.json"), &kf)
 
-	props := []string{*prop}
+	props := strings.Split(*prop, ",")
 	if *prop == "all" {
 		props = nil
 		for i := 1; i <= 20; i++ {
 			props = append(props, fmt.Sprintf("C%02d", i))
 		}
 	}
-	timeout := 30
+	timeout := 40
 	if *tier == "thorough" {
 		timeout = 120
+	}
+	if *rebase {
+		timeout = 40
 	}
 	// generate the VCs of every function whose contract serves one of the properties
 	gen := w.generate(props)
@@ -212,6 +258,12 @@ func servesProp(c *Contract, props []string) bool {
 	for _, cl := range c.Decs {
 		all = append(all, cl.Tags...)
 	}
+	for _, cl := range c.CallInvs {
+		all = append(all, cl.Tags...)
+	}
+	for _, cl := range c.Panics {
+		all = append(all, cl.Tags...)
+	}
 	if c.Decrease != nil {
 		all = append(all, c.Decrease.Tags...)
 	}
@@ -219,7 +271,7 @@ func servesProp(c *Contract, props []string) bool {
 		all = append(all, strings.FieldsFunc(ft, func(r rune) bool { return r == ',' || r == ' ' })...)
 	}
 	for _, p := range props {
-		if hasTag(all, p) {
+		if serves(all, p) {
 			return true
 		}
 		if p == "C20" {
@@ -302,13 +354,13 @@ func (w *World) obligationsFor(p string, g *generated) []*Oblig {
 				}
 				continue
 			}
-			if hasTag(o.Tags, p) {
+			if serves(o.Tags, p) {
 				out = append(out, o)
 			}
 		}
 	}
 	for _, o := range g.lemmas {
-		if hasTag(o.Tags, p) {
+		if serves(o.Tags, p) {
 			out = append(out, o)
 		}
 	}
@@ -334,7 +386,18 @@ func (w *World) rebaseline(g *generated, reg *Registry, props []string, verif st
 	limit := float64(timeout) / 5
 	good := map[string]*RegEntry{}
 	for run := 0; run < 2; run++ {
-		res := runAll(obs, outDir, timeout, 16, nil, false)
+		// nothing slower than the registration limit is registered: no need to wait longer;
+		// the second run only re-checks what the first run discharged
+		todo := obs
+		if run == 1 {
+			todo = nil
+			for _, o := range obs {
+				if good[o.Name] != nil {
+					todo = append(todo, o)
+				}
+			}
+		}
+		res := runAll(todo, outDir, int(limit)+1, 16, nil, false)
 		for _, r := range res {
 			if r.o.Cover {
 				continue
@@ -398,17 +461,32 @@ func (w *World) checkProperty(p, tier string, seed int, g *generated, reg *Regis
 	replayDir := filepath.Join(verif, "replays")
 	os.MkdirAll(replayDir, 0o755)
 	obs := w.obligationsFor(p, g)
-	knownNames := map[string]bool{}
-	for _, k := range kf.Findings {
-		for _, n := range k.Obligations {
-			knownNames[n] = true
+	// a known finding names the obligations it explains exactly, or by regular
+	// expressions over obligation names (families such as "every decimal arm of Add")
+	knownFor := func(name string) *KnownFinding {
+		for _, k := range kf.Findings {
+			if k.Status != "known" {
+				continue
+			}
+			for _, n := range k.Obligations {
+				if n == name {
+					return k
+				}
+			}
+			for _, pat := range k.Patterns {
+				if re, err := regexp.Compile(pat); err == nil && re.MatchString(name) {
+					return k
+				}
+			}
 		}
+		return nil
 	}
 	// unregistered obligations only get the short first stage; the race with the
 	// full timeout is spent on registered obligations and known findings
 	res := runAllSel(obs, outDir, timeout, 16, func(o *Oblig) bool {
 		_, isReg := reg.Obligations[o.Name]
-		return isReg || knownNames[o.Name] || o.Kind == "lemma"
+		// (obligations explained by a known finding are expected to fail: the short first stage is enough)
+		return isReg || o.Kind == "lemma"
 	})
 
 	byName := map[string]*checkOutcome{}
@@ -455,7 +533,7 @@ func (w *World) checkProperty(p, tier string, seed int, g *generated, reg *Regis
 		}
 	}
 	for name, e := range reg.Obligations {
-		if !hasTag(e.Props, p) || byName[name] != nil {
+		if !serves(e.Props, p) || byName[name] != nil {
 			continue
 		}
 		_, fresh := successors(name, e)
@@ -477,15 +555,6 @@ func (w *World) checkProperty(p, tier string, seed int, g *generated, reg *Regis
 			} else if r.v.Status == "sat" {
 				oc.v = r.v
 			}
-		}
-	}
-	knownBy := map[string]*KnownFinding{}
-	for _, k := range kf.Findings {
-		if k.Status != "known" {
-			continue
-		}
-		for _, n := range k.Obligations {
-			knownBy[n] = k
 		}
 	}
 	// thorough: every discharged registered obligation is given to all three back ends
@@ -533,7 +602,7 @@ func (w *World) checkProperty(p, tier string, seed int, g *generated, reg *Regis
 	nReg, nRegOK := 0, 0
 	regNamesInProp := []string{}
 	for name, e := range reg.Obligations {
-		if hasTag(e.Props, p) {
+		if serves(e.Props, p) {
 			regNamesInProp = append(regNamesInProp, name)
 		}
 	}
@@ -576,7 +645,7 @@ func (w *World) checkProperty(p, tier string, seed int, g *generated, reg *Regis
 			allOK := true
 			for _, m := range fresh {
 				if !m.ok {
-					if knownBy[m.o.Name] != nil {
+					if knownFor(m.o.Name) != nil {
 						continue
 					}
 					allOK = false
@@ -610,7 +679,7 @@ func (w *World) checkProperty(p, tier string, seed int, g *generated, reg *Regis
 			oc.status = "proved-not-registered"
 			continue
 		}
-		if k := knownBy[oc.o.Name]; k != nil {
+		if k := knownFor(oc.o.Name); k != nil {
 			oc.status = "known-finding"
 			oc.kf = k
 			continue
@@ -630,16 +699,18 @@ func (w *World) checkProperty(p, tier string, seed int, g *generated, reg *Regis
 	// known findings: each listed finding of this property is reported once, after its replay
 	kfReplayed := 0
 	for _, k := range kf.Findings {
-		if k.Property != p || k.Status != "known" {
+		if (k.Property != p && !hasTag(k.Properties, p)) || k.Status != "known" {
 			continue
 		}
 		stillFails := false
-		for _, n := range k.Obligations {
-			if oc := byName[n]; oc != nil && !oc.ok {
+		var failing []*checkOutcome
+		for _, oc := range outcomes {
+			if !oc.ok && !oc.o.Cover && findingMatches(k, oc.o.Name) {
 				stillFails = true
+				failing = append(failing, oc)
 			}
 		}
-		if len(k.Obligations) == 0 {
+		if len(k.Obligations) == 0 && len(k.Patterns) == 0 {
 			stillFails = true // findings outside the reach of any obligation: decided by the replay alone
 		}
 		if !stillFails {
@@ -657,10 +728,8 @@ func (w *World) checkProperty(p, tier string, seed int, g *generated, reg *Regis
 			knownLines = append(knownLines, fmt.Sprintf("KNOWN-FINDING: property=%s %s: %s [witness: %s]", p, k.ID, k.What, k.Witness))
 		} else {
 			// the obligation fails but the recorded witness no longer reproduces: a different violation
-			for _, n := range k.Obligations {
-				if oc := byName[n]; oc != nil && !oc.ok {
-					reportViolation(oc, n, "fails, and the recorded witness of "+k.ID+" no longer reproduces")
-				}
+			for _, oc := range failing {
+				reportViolation(oc, oc.o.Name, "fails, and the recorded witness of "+k.ID+" no longer reproduces")
 			}
 		}
 	}
